@@ -30,7 +30,8 @@ Inductive stmt :=
 | Seq (a b : stmt)
 | If (cond : string) (t e : stmt)
 | Loop (b : stmt)
-| Scope (b : stmt).          (* an inlined call / an immediately invoked lambda: Ret leaves the scope only *)
+| Scope (b : stmt)           (* an inlined call / an immediately invoked lambda: Ret leaves the scope only *)
+| Try (b h : stmt).          (* try { b } catch (...) { h }: an exception raised in b may be caught (then h runs) or propagate *)
 
 Fixpoint block (l : list stmt) : stmt :=
   match l with
@@ -149,6 +150,11 @@ Fixpoint run (s : stmt) (S : list astate) : res :=
   | Scope b =>
       let rb := run b S in
       {| falls := aunion (falls rb) (rets rb); rets := []; throws := throws rb; unk := unk rb |}
+  | Try b h =>
+      let rb := run b S in
+      let rh := run h (throws rb) in
+      {| falls := aunion (falls rb) (falls rh); rets := aunion (rets rb) (rets rh);
+         throws := aunion (throws rb) (throws rh); unk := unk rb || unk rh |}
   end.
 
 (* inlining of the calls of other methods of the class *)
@@ -159,6 +165,7 @@ Fixpoint inline_s (self : string -> bool -> stmt) (s : stmt) : stmt :=
   | If c t e => If c (inline_s self t) (inline_s self e)
   | Loop b => Loop (inline_s self b)
   | Scope b => Scope (inline_s self b)
+  | Try b h => Try (inline_s self b) (inline_s self h)
   | _ => s
   end.
 
@@ -236,6 +243,7 @@ Fixpoint stmt_exc_ok (s : stmt) : bool :=
   | Do (EThrow e) => exc_ok e
   | Seq a b => stmt_exc_ok a && stmt_exc_ok b
   | If _ t e => stmt_exc_ok t && stmt_exc_ok e
+  | Try t e => stmt_exc_ok t && stmt_exc_ok e
   | Loop b | Scope b => stmt_exc_ok b
   | _ => true
   end.
@@ -247,6 +255,7 @@ Fixpoint count_throws (s : stmt) : nat :=
   | Do (EThrow _) => 1
   | Seq a b => count_throws a + count_throws b
   | If _ t e => count_throws t + count_throws e
+  | Try t e => count_throws t + count_throws e
   | Loop b | Scope b => count_throws b
   | _ => 0
   end.
@@ -318,6 +327,16 @@ Section Semantics.
         match exec fuel b st os with
         | Returned st' os' => Fell st' os'
         | r => r
+        end
+    | Try b h =>
+        (* the first oracle decides whether an exception of b is caught; the handler then runs on the rest of the stream *)
+        match os with
+        | o :: r =>
+            match exec fuel b st r with
+            | Threw st' => if o_bool o then exec fuel h st' r else Threw st'
+            | x => x
+            end
+        | [] => Stuck
         end
     end.
 
